@@ -51,6 +51,8 @@ def cases(tier, rng):
         yield "shape", c
     for _ in range(6000 if thorough else 700):
         yield "rnd", genmeta.random_history(rng, max_classes=9 if thorough else 6, p_inv=0.7)
+    for c in genmeta.taken_over_shapes():
+        yield "shape-member-taken-over-from-a-base", c
     for c in genmeta.late_shapes():
         yield "late-decoration-shapes", c
     for _ in range(4000 if thorough else 500):
@@ -206,7 +208,8 @@ def spec(case, mos, io):
             if op["op"] in ("pre", "post", "snap") and c != before[k]:
                 # a late decoration of a member of class K: the classes that resolve that member to K's own function
                 # (K itself and descendants that do not override it) see it; nobody else does
-                owner = _owner_of(ops, op["f"])
+                owners = _owners_of(ops, op["f"])        # (a function object taken over by a derived class has several)
+                owner = owners[0] if owners else None
                 if owner is not None:
                     K, key = owner
                     declared = dict((o["k"], set(kk for kk, _m in o["ns"])) for o in ops if o["op"] == "class")
@@ -215,10 +218,22 @@ def spec(case, mos, io):
                     # class when that class was given an invariant - the C04 copy-down finding; a class whose member is
                     # the decorated function itself sees the decoration like the owner does)
                     real = (is_.get("fids") or {}).get(str(k), {}).get(key)
-                    if prov == K or real == op["f"]:
+                    if prov in [kk for kk, key_ in owners if key_ == key] or real == op["f"]:
                         strip = lambda cc: {**cc, "members": [mm for mm in cc["members"] if mm[0] != key]}  # noqa: E731
                         if strip(c) == strip(before[k]):
                             continue
+            if c != before[k] and op["op"] == "class" and len(op["bases"]) > 1:
+                # the class statement binds a function object that is ALSO a member of the earlier class (taken over: `m = Base.m`,
+                # `@Base.p.setter`) while ANOTHER base declares contracts for that member: the library writes what the
+                # function inherits from the other base onto the shared function (known finding; a statement with a single
+                # base, or a change that merely repeats the function's own contracts, is NOT this finding)
+                shared = _shared_keys(ops, op, k)
+                strip = lambda cc: {**cc, "members": [mm for mm in cc["members"] if mm[0] not in shared]}  # noqa: E731
+                if shared and strip(c) == strip(before[k]):
+                    fails.append("[member-taken-over-inherits-from-another-base] step %d (class %s, bases %s): the member %s of the earlier "
+                                 "class %d is the very function this class binds again; what it inherits from the other base was "
+                                 "written onto the shared function" % (i, op["k"], op["bases"], sorted(shared), k))
+                    continue
             if c != before[k]:
                 fails.append("step %d (%s %s): contracts of the earlier class %d changed from %s to %s"
                              % (i, op["op"], op["k"] or op["f"], k, before[k], c))
@@ -230,6 +245,55 @@ def spec(case, mos, io):
             fails.append("class %s member %s with contract %s false: the class's own contracts say %s, the real call %s - "
                          "another class's definition or use changed its verdict" % (mm["class"], mm["member"], mm["false"], mm["by_hand"], mm["real"]))
     return fails
+
+
+def _member_fids(m):
+    if not isinstance(m, dict):
+        return set()
+    kind = next(iter(m))
+    if kind == "prop":
+        return set(v for v in m["prop"].values() if v is not None)
+    return {m[kind]["f"]}
+
+
+def _shared_keys(ops, op, k):
+    """keys under which the class statement `op` binds a function object that the earlier class `k` (or an ancestor it
+    resolves the key to) binds too"""
+    earlier = {}
+    for o in ops:
+        if o is op:
+            break
+        if o["op"] == "class":
+            for key, m in o["ns"]:
+                earlier.setdefault(key, set()).update(_member_fids(m))
+    return set(key for key, m in op["ns"] if _member_fids(m) & earlier.get(key, set()))
+
+
+def _ids(member_entry):
+    out = set()
+    for acc in member_entry[1]:
+        out.update(x for g in acc["pre"] for x in g)
+        out.update(acc["snaps"])
+        out.update(acc["posts"])
+    return out
+
+
+def _gained_foreign(before, after, keys):
+    b = dict((m[0], m) for m in before["members"])
+    a = dict((m[0], m) for m in after["members"])
+    return any(key in a and key in b and _ids(a[key]) - _ids(b[key]) for key in keys)
+
+
+def _owners_of(ops, f):
+    out = []
+    for o in ops:
+        if o["op"] == "class":
+            for key, m in o["ns"]:
+                if isinstance(m, dict):
+                    kind = next(iter(m))
+                    if kind in ("func", "static", "classm") and m[kind]["f"] == f:
+                        out.append((o["k"], key))
+    return out
 
 
 def _owner_of(ops, f):
@@ -246,6 +310,8 @@ def _owner_of(ops, f):
 def classify(case, mos, io, fails):
     if case.get("dom") == "derived":
         return "unclassified"
+    if fails and all(f.startswith("[member-taken-over-inherits-from-another-base]") for f in fails):
+        return "member-taken-over-inherits-from-another-base"
     mo = mos[0]
     # every failing step decorates a class that, at that moment, has no invariant lists of its own but
     # reaches a base's lists through the MRO (the base got its first invariant after the subclass was created)
